@@ -22,14 +22,15 @@ func init() {
 			"O2 corrupted copies of real frames (bit flips, truncation, extension, outer/inner length-prefix inflation up to 2^63, non-minimal bytes, leading-zero integers, list/string confusion) " +
 			"are injected as a network fault: whatever the decoders accept must re-encode to exactly the bytes received; O3 HandleMsg never panics on them and a decode never allocates far beyond the " +
 			"frame size (64x + 1 MiB, measured around the call). Non-trivial = at least one corrupted frame was delivered.",
-		Real: []string{"rlp", "consensus/ucon message codec and MessageHandler.HandleMsg", "core/types header/block/receipt codecs", "core/rawdb record layout", "the whole NET world (see C02)"},
-		Stub: []string{"as the NET world (C02)"},
+		Real:              []string{"rlp", "consensus/ucon message codec and MessageHandler.HandleMsg", "core/types header/block/receipt codecs", "core/rawdb record layout", "the whole NET world (see C02)"},
+		Stub:              []string{"as the NET world (C02)"},
 		FaultsNotInjected: []string{"values and types the simulated system never produces (staking messages, evidences, validator records with unusual shapes): the value space of the codec is not explored by this technique; only what honest nodes emit and mutations of it"},
 		Assumptions:       []string{"this is a narrow, honest claim: a simulator cannot explore a codec's input space better than a fuzzer (DESIGN.md C14)"},
 		QuickBudget:       30 * time.Second, ThoroughBudget: 10 * time.Minute,
-		MinRuns:           6,
-		Exec:              runC14Net,
-		PanicClass:        kit.PanicInRepo("engine-panic"),
+		MinRuns:        6,
+		Exec:           runC14Net,
+		ExpectedProbes: []string{"corrupted-frame-decodes", "corrupted-payload-decodes-canonically"},
+		PanicClass:     kit.PanicInRepo("engine-panic"),
 	})
 }
 
@@ -87,7 +88,7 @@ func (m *codecMonitor) BlockCommitted(s *Sim, node int, block *types.Block, inse
 	}
 }
 func (m *codecMonitor) BlockImported(s *Sim, node int, block *types.Block, err error) {}
-func (m *codecMonitor) Captured(s *Sim, node int, evs []interface{}) {}
+func (m *codecMonitor) Captured(s *Sim, node int, evs []interface{})                  {}
 func (m *codecMonitor) Restarted(s *Sim, node int)                                    { m.diskSeen[node] = 0 }
 
 func (m *codecMonitor) FrameHandled(s *Sim, node int, frame []byte, corrupted bool, err error, panicked interface{}) {
